@@ -56,8 +56,9 @@ fn main() {
         strict: replay.is_some(),
     };
     install_panic_hook();
+    vcheck::gen::tree::cleanup_stale_scratch();
     start_watchdog(match tier {
-        Tier::Quick => 900,
+        Tier::Quick => 1800,
         Tier::Thorough => 3 * 3600,
     });
     if let Some(file) = replay {
@@ -91,10 +92,15 @@ fn main() {
             }
         }
     }
-    match vcheck::props::run(&env) {
-        Some(code) => std::process::exit(code),
-        None => {
+    // a panic of the harness itself (outside the guarded calls into solstat) is a harness error, never a verdict
+    match std::panic::catch_unwind(std::panic::AssertUnwindSafe(|| vcheck::props::run(&env))) {
+        Ok(Some(code)) => std::process::exit(code),
+        Ok(None) => {
             eprintln!("unknown property {prop}");
+            std::process::exit(2)
+        }
+        Err(_) => {
+            eprintln!("HARNESS-ERROR: the harness panicked outside a guarded call (message above); result inconclusive");
             std::process::exit(2)
         }
     }
